@@ -39,11 +39,16 @@ class Matmul(Function):
         rhs_grad = None
         arg_grads = [None] * len(matrix_args)
 
+        # A 1-D rhs is a single column whatever the batch shape of the operator
+        # (grad_output then has the shape *batch x M, which is not 1-D for a batched operator)
+        is_vector = rhs.ndimension() == 1
+        if is_vector:
+            rhs = rhs.unsqueeze(-1)
+            grad_output = grad_output.unsqueeze(-1)
+
         # input_1 gradient
         if any(ctx.needs_input_grad[2:]):
-            rhs = rhs.unsqueeze(-1) if (rhs.ndimension() == 1) else rhs
-            grad_output_matrix = grad_output.unsqueeze(-1) if grad_output.ndimension() == 1 else grad_output
-            arg_grads = ctx.representation_tree(*matrix_args)._bilinear_derivative(grad_output_matrix, rhs)
+            arg_grads = ctx.representation_tree(*matrix_args)._bilinear_derivative(grad_output, rhs)
 
         # input_2 gradient
         if ctx.needs_input_grad[1]:
@@ -52,14 +57,13 @@ class Matmul(Function):
             else:
                 linear_op = ctx.representation_tree(*matrix_args)
 
-            if grad_output.dim() == 1:
-                # Confusing Cublas_Sgemv bug when grad_output is single dimensional on GPU.
-                rhs_grad = linear_op._t_matmul(grad_output.unsqueeze(-1)).squeeze(-1)
-            else:
-                rhs_grad = linear_op._t_matmul(grad_output)
+            rhs_grad = linear_op._t_matmul(grad_output)
+            if is_vector:
+                rhs_grad = rhs_grad.squeeze(-1)
 
-            # For broadcasting
-            if rhs_grad.dim() > len(rhs_shape):
-                rhs_grad = rhs_grad.reshape(-1, *rhs_shape).sum(0)
+            # For broadcasting: sum over the dimensions along which the rhs was broadcast
+            # (leading dimensions the rhs does not have, and its size-1 dimensions wherever they are)
+            if rhs_grad.shape != rhs_shape:
+                rhs_grad = rhs_grad.sum_to_size(rhs_shape)
 
         return tuple([None] + [rhs_grad] + list(arg_grads))
